@@ -303,14 +303,24 @@ def euler_rotation_angles(matrix: Tensor, order: Optional[str] = None) -> Tensor
     else:
         # https://en.wikipedia.org/wiki/Euler_angles#Rotation_matrix
         angles = matrix.new_empty(matrix.shape[:-2] + (D,))
+        # When the middle angle is 0 or pi, the first and last rotation are about the same axis.
+        # The sum (difference) of these two angles is then assigned to the first angle.
+        eps = torch.finfo(matrix.dtype).eps
         if order == "XZX":
-            angles[..., 0] = torch.atan2(matrix[..., 2, 0], matrix[..., 1, 0])
-            angles[..., 1] = torch.acos(matrix[..., 0, 0])
-            angles[..., 2] = torch.atan2(matrix[..., 0, 2], -matrix[..., 0, 1])
+            degenerate = matrix[..., 1, 0].abs().add(matrix[..., 2, 0].abs()).le(eps)
+            sign = matrix[..., 0, 0].sign()
+            alpha = torch.atan2(matrix[..., 2, 1].mul(sign), matrix[..., 1, 1].mul(sign))
+            angles[..., 0] = torch.atan2(matrix[..., 2, 0], matrix[..., 1, 0]).where(~degenerate, alpha)
+            sin_beta = torch.hypot(matrix[..., 1, 0], matrix[..., 2, 0])
+            angles[..., 1] = torch.atan2(sin_beta, matrix[..., 0, 0])
+            angles[..., 2] = torch.atan2(matrix[..., 0, 2], -matrix[..., 0, 1]).masked_fill(degenerate, 0)
         elif order == "ZXZ":
-            angles[..., 0] = torch.atan2(matrix[..., 0, 2], -matrix[..., 1, 2])
-            angles[..., 1] = torch.acos(matrix[..., 2, 2])
-            angles[..., 2] = torch.atan2(matrix[..., 2, 0], matrix[..., 2, 1])
+            degenerate = matrix[..., 0, 2].abs().add(matrix[..., 1, 2].abs()).le(eps)
+            alpha = torch.atan2(matrix[..., 1, 0], matrix[..., 0, 0])
+            angles[..., 0] = torch.atan2(matrix[..., 0, 2], -matrix[..., 1, 2]).where(~degenerate, alpha)
+            sin_beta = torch.hypot(matrix[..., 0, 2], matrix[..., 1, 2])
+            angles[..., 1] = torch.atan2(sin_beta, matrix[..., 2, 2])
+            angles[..., 2] = torch.atan2(matrix[..., 2, 0], matrix[..., 2, 1]).masked_fill(degenerate, 0)
         else:
             raise NotImplementedError(f"euler_rotation_angles() order={order!r}")
     return angles
